@@ -51,11 +51,19 @@ Definition obs_eqb {A} (eqb : A -> A -> bool) (a b : obs A) : bool :=
 Definition tokens_eqb : tokens -> tokens -> bool := list_eqb String.eqb.
 
 Record tg_case := mk_tg {
+  tg_tag : string;                        (* generator stream / annotation *)
   tg_reg : registry;
   tg_spec : sspec;
   tg_outs : list (option suberr);
   tg_gen : obs tokens;
-  tg_paths : list (obs tokens) }.
+  tg_paths : list (obs tokens);
+  tg_syn_ok : bool;                       (* syn::parse2::<syn::File> accepted the observed module *)
+  tg_upcasts : list (N * option N * obs tokens);   (* (type id, variant position, standalone struct tokens) *)
+  tg_expect : option (string * list N) }. (* outcome the fault injector expects (kind, payload) *)
+
+(** two runs related by [tp_kind]: "same" (equal inputs / permuted histories /
+    renumbered registry: outputs must be token-identical), or a switch name *)
+Record tg_pair := mk_pair { tp_kind : string; tp_a : tg_case; tp_b : tg_case }.
 
 Definition model_items (r : registry) (s : settings) : result items :=
   generate r s (types_equal r).
@@ -75,6 +83,37 @@ Definition corr_paths (c : tg_case) : bool :=
   let s := settings_of (tg_spec c) in
   list_eqb (obs_eqb tokens_eqb) (map (fun i => obs_of (model_path (tg_reg c) s i)) (ids_of (tg_reg c)))
            (tg_paths c).
+
+(** standalone struct from the field list of a struct ([None]) or of the k-th variant *)
+Definition upcast_fields (r : registry) (id : N) (vi : option N) : option (string * list field * list string) :=
+  match resolve r id with
+  | None => None
+  | Some t =>
+      match t_def t, vi with
+      | TDComposite fs, None =>
+          match path_ident (t_path t) with Some n => Some (n, fs, t_docs t) | None => None end
+      | TDVariant vs, Some k =>
+          match nth_error vs (N.to_nat k) with
+          | Some v => Some (v_name v, v_fields v, v_docs v)
+          | None => None
+          end
+      | _, _ => None
+      end
+  end.
+
+Definition model_upcast (r : registry) (s : settings) (id : N) (vi : option N) : result tokens :=
+  match upcast_fields r id vi with
+  | None => Panic "harness: no such field list"
+  | Some (name, fs, docs) =>
+      let* name := parse_ident name in
+      let* ku := create_composite_ir_kind r s fs [] [] in
+      type_ir_tokens s (upcast_composite s (mk_ci name (fst ku) (docs_from_scale_info s docs)))
+  end.
+
+Definition corr_upcasts (c : tg_case) : bool :=
+  let s := settings_of (tg_spec c) in
+  forallb (fun '(id, vi, o) => obs_eqb tokens_eqb (obs_of (model_upcast (tg_reg c) s id vi)) o)
+          (tg_upcasts c).
 
 Definition corr_ops (c : tg_case) : bool :=
   list_eqb (option_eqb suberr_eqb) (snd (run_ops (ss_ops (tg_spec c)))) (tg_outs c).
